@@ -24,7 +24,7 @@ class _FakeCert:
 
 class World:
     # pylint: disable=too-many-instance-attributes
-    def __init__(self, fsm=True, tls=True):
+    def __init__(self, fsm=True, tls=True, root=None):
         self.dawgie = boot.init()
         boot.stub_dot()
         import dawgie.context as ctx  # pylint: disable=import-outside-toplevel
@@ -37,11 +37,11 @@ class World:
 
         self.ctx = ctx
         self.reactor = vreactor.REACTOR
-        self.root = boot.scratch('world')
+        self.root = root or boot.scratch('world')
         self.aeroot = os.path.join(self.root, 'ae')
-        os.makedirs(self.aeroot)
+        os.makedirs(self.aeroot, exist_ok=True)
         for name in ('dbs', 'logs', 'per', 'stg', 'db', 'fe'):
-            os.makedirs(os.path.join(self.root, name))
+            os.makedirs(os.path.join(self.root, name), exist_ok=True)
         ctx.data_dbs = os.path.join(self.root, 'dbs')
         ctx.data_log = os.path.join(self.root, 'logs')
         ctx.data_per = os.path.join(self.root, 'per')
